@@ -25,7 +25,7 @@ func init() {
 			"non-trivial = the program reports >= 1 variable and binds or shadows >= 1 name, or reports >= 2 variables; distinct by program hash. A separate precision clause runs programs whose bound names are globally fresh and requires that none of them is reported.",
 		Assumptions: []string{"diagnostics are compared by severity, summary, subject range and detail with the 'Did you mean' suggestion removed (the suggestion depends on which names are in scope by design)"},
 		Quick:       Plan{Batches: 16, PerBatch: 2500, MinNonTrivial: 8000},
-		Thorough:    Plan{Batches: 64, PerBatch: 40000, MinNonTrivial: 300000},
+		Thorough:    Plan{Batches: 64, PerBatch: 60000, MinNonTrivial: 300000},
 		Case:        c07Case,
 	})
 }
